@@ -30,6 +30,16 @@ def plan(tier, seed):
 
 def make_model(seed, tier):
     r = random.Random(seed)
+    OPT['coherent'] = False
+    if r.random() < 0.3:
+        # a coherent universe: classes that derive from, take, return and hold each other.  Ignoring one of them must
+        # still leave every other block untouched (ignore == delete is not compared here: deleting a class that
+        # others refer to is another input, not an equivalent one)
+        from vlib import cohgen
+        k = cohgen.Knobs(classes=r.choice([2, 4]), members=r.choice([3, 6]), ns_depth=r.choice([0, 1, 2]),
+                         namespaces=r.choice([1, 2]), funcs=r.choice([1, 3]))
+        OPT['coherent'] = True
+        return cohgen.CohGen(seed, k, target='matlab', serialize_p=0.2).module()
     knobs = gen.Knobs(items=r.choice([3, 4, 5]), members=r.choice([2, 4]), ns_depth=r.choice([1, 2, 3]), inst_len=3)
     g = gen.WildGen(seed, knobs, multiline_defaults=False, typedefs=True, typedef_same_ns=True, param_use=0.3, this_use=0.05,
                     class_template_p=0.4, includes=False, enum_namesakes=0.25, serialize_p=0.3, ns_namesakes=0.25)
@@ -172,7 +182,7 @@ def x_routine(name, x):
 
 def check_triple(mod, x, which, acc):
     text = render.render(mod)
-    deleted = delete_X(mod, x)
+    deleted = None if OPT.get('coherent') else delete_X(mod, x)
     vs = []
     if which == 'pybind':
         try:
@@ -315,6 +325,7 @@ def run_case(seed, tier, acc, only=None):
     r = random.Random(seed ^ 0xC15)
     OPT['ser'] = random.Random(seed ^ 0x5E7).random() < 0.5
     acc.count('opt:ser%d' % OPT['ser'])
+    acc.count('kind:coherent' if OPT.get('coherent') else 'kind:wild')
     cands = candidates(mod)
     out = []
     picks = []
@@ -345,6 +356,8 @@ def run_case(seed, tier, acc, only=None):
     for j, which in enumerate(('pybind', 'matlab')):
         if only is not None and 100 + j != only:
             continue
+        if OPT.get('coherent'):
+            continue      # in a coherent universe no declaration is unrelated to the others
         try:
             vs = check_unrelated(mod, which, r, acc)
         except Exception as e:
